@@ -148,18 +148,25 @@ func c09Answer(id uint16, name string) []byte {
 	return b
 }
 
-// Verif_C09_udp_upstream_id: the upstream socket delivers up to three datagrams with arbitrary IDs
-// (late answers to earlier queries, duplicates) before or instead of the real answer: ForwardDNS
-// returns exactly the first datagram that carries the request's ID, and an error if there is none.
+// Verif_C09_udp_upstream_id: the upstream socket delivers up to three datagrams with arbitrary IDs,
+// each echoing either the question asked (possibly in another letter case) or another one (late
+// answers to earlier queries that used the same socket, duplicates), before or instead of the real
+// answer: ForwardDNS returns exactly the first datagram that carries the request's ID and answers
+// the request's question, and an error if there is none - a reply to another question is never
+// taken for the answer, even under the right ID.
 func Verif_C09_udp_upstream_id() {
 	rid := vs.U16("request.id")
 	n := 1 + vs.Choice("datagrams", 3)
 	conn := &c09UpConn{}
 	ids := make([]uint16, n)
-	names := []string{"late.example.", "dup.example.", "real.example."}
+	same := make([]bool, n)
+	names := []string{"real.example.", "late.example.", "REAL.Example."}
 	for i := 0; i < n; i++ {
-		ids[i] = vs.U16("datagram" + string(rune('0'+i)) + ".id")
-		conn.datagrams = append(conn.datagrams, c09Answer(ids[i], names[i]))
+		tag := "datagram" + string(rune('0'+i))
+		ids[i] = vs.U16(tag + ".id")
+		k := vs.Choice(tag+".question", len(names))
+		same[i] = k != 1
+		conn.datagrams = append(conn.datagrams, c09Answer(ids[i], names[k]))
 	}
 	d := &DoUDP{profile: UdpLifecycleProfile{Kind: UdpLifecycleKindDnsTransactional}}
 	d.pool = newUdpConnPool(4, 4, func(ctx context.Context) (netproxy.Conn, error) { return conn, nil })
@@ -171,16 +178,17 @@ func Verif_C09_udp_upstream_id() {
 	msg, err := d.ForwardDNS(context.Background(), data)
 	first := -1
 	for i := n - 1; i >= 0; i-- {
-		if ids[i] == rid {
+		if ids[i] == rid && same[i] {
 			first = i
 		}
 	}
 	if first < 0 {
-		vs.Assert("no datagram with the request's ID: no answer is made up", err != nil && msg == nil)
+		vs.Assert("no datagram with the request's ID and question: no answer is made up", err != nil && msg == nil)
 		return
 	}
 	vs.Assert("the datagram carrying the request's ID is returned", err == nil && msg != nil && msg.Id == rid)
-	vs.Assert("and it is the first such datagram", len(msg.Question) == 1 && msg.Question[0].Name == names[first])
+	vs.Assert("and it answers the question that was asked", len(msg.Question) == 1 && (msg.Question[0].Name == "real.example." || msg.Question[0].Name == "REAL.Example."))
+	vs.Assert("and it is the first such datagram", conn.next == first+1)
 }
 
 // ---- concurrent identical questions: one resolution, every waiter answered under its own ID ----
